@@ -24,6 +24,7 @@ func main() {
 	list := flag.Bool("list", false, "list properties and rules")
 	dump := flag.Bool("dump", false, "print every obligation")
 	noself := flag.Bool("noselftest", false, "skip the mutant self-test in the thorough tier")
+	oblig := flag.Bool("obligations", false, "print every obligation as a JSON line (used by the self-test, which runs this binary on patched scratch copies)")
 	manifest := flag.Bool("manifest", false, "print MANIFEST.json generated from the rule registry")
 	flag.Parse()
 	if *manifest {
@@ -84,7 +85,17 @@ func main() {
 		fmt.Fprintf(os.Stderr, "unknown property %q\n", *prop)
 		os.Exit(2)
 	}
+	if os.Getenv("VERIF_REPO") != "" {
+		core.NoReplay = true // a scratch copy is analysed: its reports are not replay artefacts of /repo
+	}
 	res := core.RunProperty(p, *tier, seed, *rule)
+	if *oblig {
+		enc := json.NewEncoder(os.Stdout)
+		for _, o := range res.Obligations {
+			enc.Encode(map[string]string{"verdict": o.Verdict, "rule": o.Rule, "config": o.Config, "key": o.Key})
+		}
+		os.Exit(0)
+	}
 	if *tier == "thorough" && !*noself && *rule == "" && os.Getenv("VERIF_REPO") == "" {
 		res.SelfTest = selftest.Run(p, seed)
 		if res.SelfTest != nil && res.SelfTest.Missed > 0 {
